@@ -359,6 +359,31 @@ func withoutGivenUpMaps(d, spoc *vdev) (*vdev, bool) {
 	return c, changed
 }
 
+// mixedMapHosts: some aaa-server whose target host line has no ldap-attribute-map has hosts WITH and hosts WITHOUT the map in d.
+func mixedMapHosts(d, spoc *vdev) bool {
+	c, changed := withoutGivenUpMaps(d, spoc)
+	if !changed {
+		return false
+	}
+	// some host of such a server already lacks the line
+	for i, x := range d.Blocks {
+		w := x.words()
+		if k, _ := headKind(w); k == "aaa" && contains(w, "host") && len(c.Blocks[i].Subs) == len(x.Subs) {
+			for _, y := range d.Blocks {
+				yw := y.words()
+				if ky, _ := headKind(yw); ky == "aaa" && contains(yw, "host") && yw[1] == w[1] && y != x {
+					for _, sx := range y.Subs {
+						if strings.HasPrefix(sx, "ldap-attribute-map ") {
+							return true
+						}
+					}
+				}
+			}
+		}
+	}
+	return false
+}
+
 // ofViews: the lines in which the two views differ are all `[crypto map interface X]` lines of maps of ONE culprit class.
 func (cu *culprits) ofViews(got, want string) string {
 	in := func(l []string) map[string]bool {
@@ -814,7 +839,11 @@ func run(ctx *Ctx) *Result {
 				}
 			}
 			if pan2 != "" || st2 != 0 {
-				res.Fail(sig("second_compare_failed", "reason", drcReason(err2)), fmt.Sprintf("second compare: exit %d %s %s", st2, pan2, err2), c)
+				culprit := "other"
+				if mixedMapHosts(final, c.spoc) {
+					culprit = "ldap_attribute_map_left_on_further_hosts_of_aaa_server"
+				}
+				res.Fail(sig("second_compare_failed", "reason", drcReason(err2), "culprit", culprit), fmt.Sprintf("second compare: exit %d %s %s", st2, pan2, err2), c)
 			} else if strings.TrimSpace(out2) != "" {
 				res.Fail(sig("second_compare_not_empty", "culprit", cu.ofCmds(splitScript(out2))), "second compare reports changes:\n"+out2+"-- first script\n"+out, c)
 			}
@@ -894,6 +923,8 @@ func run(ctx *Ctx) *Result {
 					culprit := "other"
 					if peerlessEntry(st) {
 						culprit = "crypto_map_entry_without_peer_in_intermediate_state" // computed from the state, not from drc's message
+					} else if mixedMapHosts(st, c.spoc) {
+						culprit = "ldap_attribute_map_left_on_further_hosts_of_aaa_server"
 					}
 					res.Fail(sig("resume_state_not_accepted", "reason", drcReason(err2), "culprit", culprit), where+": drc rejects the intermediate device: "+strings.TrimSpace(err2)+"\n-- script\n"+out, c)
 					continue
